@@ -1,7 +1,7 @@
 SPECIFICATION Spec
 CONSTANTS
-  Keys = {1, 2}
-  Vals = {1, 2}
+  Keys = {1}
+  Vals = {1}
   MaxHist = 3
   MaxSess = 2
   Judge = FALSE
